@@ -103,6 +103,20 @@ def _pure_string_literal(v):
     return False
 
 
+def _frozen_literal(v):
+    """frozenset(<tuple / list / set display of string or number literals>)"""
+    return (
+        isinstance(v, ast.Call)
+        and isinstance(v.func, ast.Name)
+        and v.func.id == "frozenset"
+        and len(v.args) == 1
+        and not v.keywords
+        and isinstance(v.args[0], (ast.Tuple, ast.List, ast.Set))
+        and bool(v.args[0].elts)
+        and all(isinstance(e, ast.Constant) and isinstance(e.value, (str, int, float)) for e in v.args[0].elts)
+    )
+
+
 def _inline_module_string_constants(tree):
     """
     `_OPTIONAL_PREFIX = "Optional["` hoisted to module level and used by name is the same program as the literal
@@ -125,6 +139,10 @@ def _inline_module_string_constants(tree):
         else:
             continue
         if _CONST_NAME.match(t.id) and _pure_string_literal(v):
+            cands.setdefault(t.id, []).append(v)
+        elif t.id.startswith("_") and _CONST_NAME.match(t.id) and _frozen_literal(v):
+            # _SIGNS = frozenset(("-", "+")) — a PRIVATE constant set of literals hoisted out of a function (a public
+            # one is API and keeps its name)
             cands.setdefault(t.id, []).append(v)
     if not cands:
         return
